@@ -166,7 +166,7 @@ Print Assumptions C10_rollback_bare_errors.
    fluctuation (divisor of the force constant and of the mass) and time constant, non-negative damping;
    harmonicWalls: at least one list of walls, one wall per variable in every list given, lower < upper (and apart) and
    non-zero constants when both are given;  OPES: barrier >= 0, biasfactor > 1 or infinite, epsilon > 0, cutoff > 0,
-   compression threshold 0 or within [0, cutoff];  metadynamics: positive hill weight, one width per variable;
+   compression threshold 0 or within [0, cutoff];  metadynamics: positive hill weight, one width per variable, every width positive;
    shared ABF: outputFreq a multiple of sharedFreq (or sharedFreq 0);  ALB: halved update frequency >= 2, one center per
    variable;  changing force constant: k >= 0 and targetNumSteps non-zero. *)
 Theorem C10_accepted_configuration_invariants :
@@ -181,7 +181,8 @@ Theorem C10_accepted_configuration_invariants :
   (forall kbt bfinf explore e,
      x_err (fst (opesx_validate kbt bfinf explore e)) = false -> opesx_inv (snd (opesx_validate kbt bfinf explore e)) = true) /\
   (forall n e, x_err (fst (metax_validate n e)) = false ->
-     negb (Qle_bool (mx_weight (snd (metax_validate n e))) Q0) = true /\ mx_sigmas (snd (metax_validate n e)) = n) /\
+     negb (Qle_bool (mx_weight (snd (metax_validate n e))) Q0) = true /\ mx_sigmas (snd (metax_validate n e)) = n /\
+     forallb (Qltb Q0) (mx_widths (snd (metax_validate n e))) = true) /\
   (forall rof e, x_err (fst (abfshared_validate rof e)) = false -> eflag e "shared" false = true ->
      let '(ofr, sf) := snd (abfshared_validate rof e) in (sf =? 0) || (ofr mod sf =? 0) = true) /\
   (forall n e, x_err (fst (alb_validate n e)) = false ->
